@@ -86,6 +86,15 @@ def run(ctx):
         with codecs_installed():
             return json.loads(json.dumps(x))
 
+    def via_install(x):
+        # the process-wide switch: measured.json.install() ... uninstall()
+        from measured import json as mjson
+        mjson.install()
+        try:
+            return json.loads(json.dumps(x))
+        finally:
+            mjson.uninstall()
+
     codecs = {
         "pickle2": lambda x: pickle.loads(pickle.dumps(x, 2)),
         "pickle3": lambda x: pickle.loads(pickle.dumps(x, 3)),
@@ -96,6 +105,7 @@ def run(ctx):
         "deepcopy": copy.deepcopy,
         "json": lambda x: json.loads(json.dumps(x, cls=MeasuredJSONEncoder), cls=MeasuredJSONDecoder),
         "codecs_installed": via_codecs_installed,
+        "json-install": via_install,
         "pydantic-python": lambda x: adapters[type(x)].validate_python(adapters[type(x)].dump_python(x)),
         "pydantic-json": lambda x: adapters[type(x)].validate_python(json.loads(adapters[type(x)].dump_json(x), cls=MeasuredJSONDecoder)),
         "pydantic-json-mode-python": lambda x: adapters[type(x)].validate_python(adapters[type(x)].dump_python(x, mode="json")),
@@ -167,7 +177,7 @@ def run(ctx):
             ctx.count(f"quantities_x_codecs/{cname}/{mkind}")
             ctx.distinct((cname, "quantity", pools.shape_class(factors), mkind))
             case = {"quantity": [model.enc_mag(mag), term], "codec": cname}
-            uses_unit_str = cname in ("json", "codecs_installed", "pydantic-python", "pydantic-json", "pydantic-json-mode-python", "sql-composite")
+            uses_unit_str = cname in ("json", "codecs_installed", "json-install", "pydantic-python", "pydantic-json", "pydantic-json-mode-python", "sql-composite")
             if cname == "pydantic-python":
                 uses_unit_str = False  # python mode hands the Quantity object through
             try:
@@ -253,7 +263,7 @@ def run(ctx):
     # a document decoded earlier in the process wrote a unit as text that resolved as prefix + symbol; a unit
     # with exactly that symbol is declared afterwards; a quantity of the new unit must still round-trip
     abc = "abcdefghijklmnopqrstuvwxyz"
-    qcodecs = ("json", "codecs_installed", "pydantic-python", "pydantic-json", "pydantic-json-mode-python")
+    qcodecs = ("json", "codecs_installed", "json-install", "pydantic-python", "pydantic-json", "pydantic-json-mode-python")
     for k in range(4 if ctx.tier == "quick" else 40):
         sym = "zqv" + abc[ctx.shard % 26] + abc[k % 26] + abc[k // 26]
         base = Unit.define(m.Length, f"zqc15v{ctx.shard}k{k}", sym)
